@@ -222,8 +222,31 @@ def _long_worker(_):
     return stats, [(k, w + ' [1,300-block chain with a stale sibling at every height]', (), s) for k, w, h, s in bad[:3]], len(bad)
 
 
+def _wide_worker(_):
+    """row-count sweep: one block carries a transaction with 1,201 outputs (more output rows than any round batch size), a
+    competing empty block next to it and a child spending two of the late outputs; written under six batchings"""
+    ledger.setup()
+    uni = universe()
+    hist = (('f',), ('f', 's'), ('f', 's', 'O'), ('f', 's', 'e'), ('f', 's', 'O', 'P'))
+    stats = {'flushes': 0, 'reloads': 0, 'blocks_compared': 0, 'state_checks': 0, 'state_checks_skipped': 0, 'runs': 0}
+    bad = []
+    if any(uni.get(p) is None for p in hist):
+        return stats, [('harness', 'wide fan-out history not constructible', (), [])], 1
+    dbpath = os.path.join(os.getcwd(), 'c08-wide.db')
+    for sizes in ([5], [2, 3], [3, 2], [1, 1, 1, 1, 1], [2, 1, 2], [4, 1]):
+        stats['runs'] += 1
+        run_history(uni, hist, sizes, dbpath, stats, bad)
+        if bad:
+            break
+    if os.path.exists(dbpath):
+        os.remove(dbpath)
+    return stats, [(k, w + ' [block with a 1,201-output transaction]', hist, s) for k, w, h, s in bad[:3]], len(bad)
+
+
 def _worker(arg):
     hists, wid = arg
+    if hists == 'wide':
+        return _wide_worker(None)
     if hists == 'sweep':
         return _sweep_worker(None)
     if hists == 'long':
@@ -276,7 +299,7 @@ def run(ctx):
         import random
         random.Random(ctx.seed).shuffle(hists)
     n = max(1, min(len(hists), ctx.ncpu * 4))
-    res = ctx.pmap(_worker, [('long', -2), ('sweep', -1)] + [(hists[i::n], i) for i in range(n)])
+    res = ctx.pmap(_worker, [('long', -2), ('sweep', -1), ('wide', -3)] + [(hists[i::n], i) for i in range(n)])
     tot = {}
     for st, bad, nbad in res:
         for k, v in st.items():
@@ -297,7 +320,7 @@ def run(ctx):
         'rule': "histories = BFS over block trees (payload menu with forks including the same transaction / spending the same "
                 "output differently / multi-input multi-output), %d blocks beyond a 2-block prefix; each history under every "
                 "composition into flush batches (those with <= 2 batches also with the first batch handed over, discarded as after a rejected download, and handed over again); after every flush a restart and comparison of every block (bytes, order) and "
-                "of the rebuilt ledger state; plus a 201-block chain carrying reward data of every length 0..200 and a 1,300-block chain with a stale sibling at every height (2,601 rows)" % depth,
+                "of the rebuilt ledger state; plus a 201-block chain carrying reward data of every length 0..200 and a 1,300-block chain with a stale sibling at every height (2,601 rows) and a block with a 1,201-output transaction" % depth,
     })
     ctx.assumptions.append("fidelity of acknowledged flushes with a clean shutdown; crash consistency of SQLite (journal_mode="
                            "MEMORY, synchronous=OFF) is not what the property asks")
